@@ -1954,7 +1954,10 @@ namespace bloch::compiler {
         if (node.target)
             node.target->accept(*this);
         auto tinfo = inferTypeInfo(node.target.get());
-        if (tinfo.value != ValueType::Unknown && tinfo.value != ValueType::Qubit) {
+        // an array or class type has no primitive value type: it is named by className
+        bool isArrayOrClass = !tinfo.className.empty() && !tinfo.isTypeParam;
+        if (isArrayOrClass ||
+            (tinfo.value != ValueType::Unknown && tinfo.value != ValueType::Qubit)) {
             throw BlochError(ErrorCategory::Semantic, node.line, node.column,
                              "reset target must be a 'qubit'");
         }
@@ -1966,7 +1969,10 @@ namespace bloch::compiler {
         auto tinfo = inferTypeInfo(node.qubit.get());
         bool isQubitArray = (!tinfo.className.empty() && tinfo.className == "qubit[]");
         bool isQubit = tinfo.value == ValueType::Qubit;
-        if (tinfo.value != ValueType::Unknown && !isQubit && !isQubitArray) {
+        bool isOtherArrayOrClass =
+            !tinfo.className.empty() && !tinfo.isTypeParam && !isQubitArray;
+        if (isOtherArrayOrClass ||
+            (tinfo.value != ValueType::Unknown && !isQubit && !isQubitArray)) {
             throw BlochError(ErrorCategory::Semantic, node.line, node.column,
                              "measure target must be a 'qubit' or 'qubit[]'");
         }
@@ -2675,7 +2681,9 @@ namespace bloch::compiler {
         if (node.qubit)
             node.qubit->accept(*this);
         auto tinfo = inferTypeInfo(node.qubit.get());
-        if (tinfo.value != ValueType::Unknown && tinfo.value != ValueType::Qubit) {
+        bool isArrayOrClass = !tinfo.className.empty() && !tinfo.isTypeParam;
+        if (isArrayOrClass ||
+            (tinfo.value != ValueType::Unknown && tinfo.value != ValueType::Qubit)) {
             throw BlochError(ErrorCategory::Semantic, node.line, node.column,
                              "measure target must be a 'qubit'");
         }
